@@ -32,7 +32,7 @@ ASSUMPTIONS = [
 CELLS = [f"{r}.{d}.{s}" for r in ("plain", "renamed")
          for d in ("nodefault", "valid", "invalid", "nested", "composition")
          for s in ("supplied", "omitted")]
-REQUIRED_COUNTERS = ["objects", "subsets", "members.checked", "owner.class", "owner.parsed", "owner.untyped", "owner.subclass",
+REQUIRED_COUNTERS = ["objects", "subsets", "members.checked", "owner.class", "owner.parsed", "parsed.single_type_list", "owner.untyped", "owner.subclass",
                      "novalue.calls", "novalue.default_valid", "novalue.default_invalid", "novalue.notpassed",
                      "class_novalue.calls", "pattern_overlap", "defaults.scribbled", "crossing_names"] + [f"cell.{c}" for c in CELLS]
 
@@ -219,7 +219,17 @@ def check_object(ctx, sut, fpm, rng, spec, owner, props, kinds, overlap):
     schema = gen_dsl.to_schema(spec, index)
     try:
         if owner == "parsed":
-            element = sut.parse_direct(schema)
+            if rng.random() < 0.4:
+                # the same schema with `type` spelled as a one-element list here and there (same meaning;
+                # the parser takes another route for it)
+                parsed_schema = copy.deepcopy(schema)
+                for sub_schema in (parsed_schema.get("properties") or {}).values():
+                    if isinstance(sub_schema, dict) and isinstance(sub_schema.get("type"), str) and rng.random() < 0.6:
+                        sub_schema["type"] = [sub_schema["type"]]
+                        ctx.count("parsed.single_type_list")
+                element = sut.parse_direct(parsed_schema)
+            else:
+                element = sut.parse_direct(schema)
             # the parser names attributes itself: map JSON name -> attribute
             attr_of = {p.source: name for name, p in element.properties.items()}
         else:
@@ -265,7 +275,9 @@ def check_object(ctx, sut, fpm, rng, spec, owner, props, kinds, overlap):
             try:
                 # C05 reads the waiver strictly: an omitted property with a default is filled in, never
                 # an error - so the object is judged with the waiver ON
-                allowed = {refmodel.valid(schema, value, schema, refmodel.Dev(waiver=True, curated=gv.CURATED))}
+                allowed = {refmodel.valid(schema, value, schema,
+                                          refmodel.Dev(waiver=True, curated=gv.CURATED, mult_disputed=flag))
+                           for flag in (True, False)}
             except Exception:  # pylint: disable=broad-except
                 allowed = {True, False}
             if allowed == {True} and outcome in ("ValidationError", "TypeError"):
